@@ -20,6 +20,7 @@ import r_repstate
 import r_shape
 import r_family
 import r_slotmod
+import r_modeflag
 import r_rngprov
 import r_dispatch
 import r_range
@@ -311,7 +312,8 @@ def c02(facts, tier):
                  "operations (no mixed-representation arithmetic, transforms and RNS routines in their own domain, "
                  "results leave canonical and with data matching their representation flag); R-SLOTMOD: in the key-switch "
                  "back end every stage touching slot s of the RNS-laid-out product buffer does so under the same prime "
-                 "index (symbolic unification of slot and index expressions under loop ranges).",
+                 "index (symbolic unification of slot and index expressions under loop ranges); R-MODEFLAG: in the add/sub back "
+                 "ends every transfer of the second operand into the result is selected by the subtract flag.",
                  "exactness of the BEHZ multiplication steps, noise growth, the arithmetic of "
                  "balance_correction_factors, that decryption returns the ring product.")
     files = None if tier == "thorough" else {"src/evaluator.rs", "src/encryptor.rs", "src/key.rs", "src/util/scaling_variant.rs"}
@@ -352,6 +354,8 @@ def c02(facts, tier):
     # key switching (relinearisation / rotation back end, shared by all schemes): the residues of each RNS slot of the
     # scratch product are produced and consumed under the same prime at every level
     r_slotmod.run(facts, rep, lambda p: facts.items.get(p, {}).get("file") == "src/evaluator.rs", floor_sites=6, floor_pairs=10)
+    # add/sub back ends: every contribution of the second operand is selected by the subtract flag
+    r_modeflag.run(facts, rep, lambda p: facts.items.get(p, {}).get("file") == "src/evaluator.rs", floor=2)
     return rep
 
 
@@ -426,6 +430,10 @@ def c03(facts, tier):
         trows.append((p, "scale", lambda y: y == M.S("scale", 0), "scale(a) unchanged"))
     M.check_table(pfm, em, rep, "CKKS", trows)
     rep.floor("R-METAFLOW(table)", "scale bookkeeping rows", len(trows), 45)
+    # scheme-independent back ends the CKKS operations share with BFV/BGV (cross-listed from C02)
+    ev = lambda p: facts.items.get(p, {}).get("file") == "src/evaluator.rs"
+    r_slotmod.run(facts, rep, ev, floor_sites=6, floor_pairs=10)
+    r_modeflag.run(facts, rep, ev, floor=2)
     return rep
 
 
